@@ -114,16 +114,18 @@ def stage_trace(chk, bins, scenario, trace_module, invariants=(), variant="dbg-n
 
 LIFE_TAIL = "INIT Init\nNEXT Next\nVIEW View\nINVARIANT Inv\nCHECK_DEADLOCK FALSE\n"
 LIFE_ALL_OPS = '{"mut", "to", "enable", "reload", "file", "writer", "mapper", "clone"}'
-LIFE_ALL_KINDS = '{"raw", "int1", "plain", "sparse", "rl"}'
+LIFE_ALL_KINDS = '{"raw", "int", "plain", "sparse", "rl"}'
 
 
-def stage_life(chk, bins, label, own, ops=LIFE_ALL_OPS, kinds=LIFE_ALL_KINDS, initkinds='{"raw", "int1"}', maxlen=3, scales=(1, 3, 64, 65),
+def stage_life(chk, bins, label, own, ops=LIFE_ALL_OPS, kinds=LIFE_ALL_KINDS, initkinds='{"raw", "int"}', intwidths="{1, 3, 30}", maxlen=3, scales=(1, 3, 64, 65),
                big_scales=(), big_stride=7, walks=0, walk_depth=12, variant="dbg-native"):
     """Cover of every (object state, class of the previous call, call) of the lifecycle machine, replayed at every scale;
     `own` lists the step classes this property answers for (a disagreement at another step belongs to another property's check)."""
     if not getattr(chk, "_tmpdir", None):
         chk.scratch_tmpdir()
-    consts = {"MaxLen": maxlen, "Ops": ops, "Kinds": kinds, "InitKinds": initkinds, "Memory": 1, "MaxDepth": 99}
+    if not chk.thorough and intwidths == "{1, 3, 30}":
+        intwidths = "{1, 30}"
+    consts = {"MaxLen": maxlen, "Ops": ops, "Kinds": kinds, "InitKinds": initkinds, "IntWidths": intwidths, "Memory": 1, "MaxDepth": 99}
     path, res = vlib.generate_cases(chk.work, "GenLife_" + label, "GenLife", cfg_consts(consts) + LIFE_TAIL, timeout=900)
     chk.add_tlc(res, "GenLife %s: cover of every (reachable (kind, bits <= %d, supports), class of the previous call, call) of the lifecycle machine "
                      "(invariants LifeOK, Content checked)" % (label, maxlen), {"behaviours": len(res.replay_lines)})
@@ -204,7 +206,7 @@ def check_C01(chk):
     # both in-word select implementations: BMI2 (native) and the portable table-driven one (generic)
     stage_gen_bv(chk, bins, ["plain"], 12 if chk.thorough else 10, FAMILY_THOROUGH if chk.thorough else FAMILY_QUICK, variants=("dbg-native", "dbg-generic"))
     # the plain bitvector reached through the lifecycle machine: raw / width-1 integer vectors under every mutation history, then BitVector::from and enable_*
-    stage_life(chk, bins, "C01", ["to:raw>plain", "enable:plain"], ops='{"mut", "to", "enable"}', kinds='{"raw", "int1", "plain"}',
+    stage_life(chk, bins, "C01", ["to:raw>plain", "enable:plain"], ops='{"mut", "to", "enable"}', kinds='{"raw", "int", "plain"}',
                maxlen=4 if chk.thorough else 3, scales=(1, 3, 64, 65), big_scales=(130, 1100) if chk.thorough else (1100,), big_stride=3 if chk.thorough else 11)
     total = stage_trace(chk, bins, "plain", "TraceBV", invariants=("ObjWellFormed",), seeds=6 if chk.thorough else 1)
     chk.cov["regimes"] = total
@@ -341,7 +343,7 @@ def check_C05(chk):
         stage_gen_vec(chk, bins, "int", "{1, 7, 31, 32, 33, 63, 64}", 30, 6, simulate="num=80", label="sim")
         stage_gen_vec(chk, bins, "raw", "{}", 30, 5, simulate="num=80", label="sim")
     # mutation histories interleaved with the routes out of and back into a raw vector (plain bitvector and back, width-1 integer vector, clone, serialize + load)
-    stage_life(chk, bins, "C05", ["mut:", "to:int1>raw", "to:plain>raw", "to:raw>raw", "clone:raw", "clone:int1"], ops='{"mut", "to", "clone", "reload"}', kinds='{"raw", "int1", "plain"}',
+    stage_life(chk, bins, "C05", ["mut:", "to:int>raw", "to:plain>raw", "to:raw>raw", "clone:raw", "clone:int"], ops='{"mut", "to", "clone", "reload"}', kinds='{"raw", "int", "plain"}',
                maxlen=4 if chk.thorough else 3, scales=(1, 3, 64, 65, 130), walks=400 if chk.thorough else 60, walk_depth=14)
     stage_trace(chk, bins, "vec", "TraceVec", invariants=("StateOK",), seeds=4 if chk.thorough else 1)
     return chk.finish(rule="cases = call histories of IntVector / RawVector; after every call the result, the projected content, equality and "
@@ -752,7 +754,7 @@ def check_C12(chk):
         stage_gen_writer(chk, bins, "raw", "{}", "{0, 64, 65, 128}", 3, 0, "raw3")
         stage_gen_writer(chk, bins, "int", "{1, 7, 33, 64}", "{0, 1, 3, 9, 10, 64}", 0, 70, "int")
     # the writers fed from vectors at every state of the lifecycle machine (grown, shrunk, overwritten), files loaded back
-    stage_life(chk, bins, "C12", ["writer:"], ops='{"mut", "to", "writer"}', kinds='{"raw", "int1"}', maxlen=4 if chk.thorough else 3, scales=(1, 3, 64, 65, 130), big_scales=(1100,), big_stride=5)
+    stage_life(chk, bins, "C12", ["writer:"], ops='{"mut", "to", "writer"}', kinds='{"raw", "int"}', maxlen=4 if chk.thorough else 3, scales=(1, 3, 64, 65, 130), big_scales=(1100,), big_stride=5)
     chk.cov["exhaustive"] = True
     stage_trace(chk, bins, "writer", "TraceWriter", seeds=2 if chk.thorough else 1)
     return chk.finish(rule="cases = (writer kind, item width, buffer size, push sequence, ending); raw: every history of 3 pushes over bits and 0..64-bit "
@@ -775,7 +777,7 @@ def check_C13(chk):
     if out:
         chk.add_replay(out, st)
     # raw / integer vector mappers over files written at every state of the lifecycle machine
-    stage_life(chk, bins, "C13", ["mapper:"], ops='{"mut", "to", "mapper"}', kinds='{"raw", "int1"}', maxlen=4 if chk.thorough else 3, scales=(1, 3, 64, 65, 130), big_scales=(1100,), big_stride=5)
+    stage_life(chk, bins, "C13", ["mapper:"], ops='{"mut", "to", "mapper"}', kinds='{"raw", "int"}', maxlen=4 if chk.thorough else 3, scales=(1, 3, 64, 65, 130), big_scales=(1100,), big_stride=5)
     chk.cov["exhaustive"] = True
     return chk.finish(rule="cases = (file made of <= 2 (3) mappable structures from a 38-value pool, view type, offset or truncation); content vs the "
                            "value, map_offset, map_len vs the sizes the format determines (so views tile the file); refusal outside the file and on "
